@@ -6,6 +6,7 @@ import (
 	"fmt"
 	"math/big"
 	"math/rand"
+	"strings"
 )
 
 var amountStrings = []string{
@@ -32,6 +33,7 @@ type gen struct {
 	rng     *rand.Rand
 	cfg     string
 	created []int // indexes of earlier create txs that deployed a runtime
+	plain   bool  // targets restricted to addresses whose code cannot call back
 }
 
 func (g *gen) pick(xs []string) string { return xs[g.rng.Intn(len(xs))] }
@@ -63,11 +65,11 @@ func (g *gen) target(allowSelf bool) string {
 		case 5, 6:
 			return g.pick([]string{"c:Sink", "c:Reverter", "c:Invalid", "c:Looper", "c:SDCaller", "c:SDArg"})
 		case 7:
-			if allowSelf {
+			if allowSelf && !g.plain {
 				return g.pick([]string{"self", "caller", "origin"})
 			}
 		case 8:
-			if len(g.created) > 0 {
+			if len(g.created) > 0 && !g.plain {
 				return fmt.Sprintf("new:%d", g.created[g.rng.Intn(len(g.created))])
 			}
 		default:
@@ -175,8 +177,21 @@ func (g *gen) terminal(allowReturn bool) (Action, string) {
 			for i := g.rng.Intn(3); i >= 0; i-- {
 				rt = append(rt, g.callAction(true))
 			}
-			if g.rng.Intn(3) == 0 {
+			// a deployed runtime creates only if it cannot be re-entered through its own
+			// calls (self / caller / origin / other deployed code): recursion would make
+			// the number of CREATEs, and so the set of child addresses, unbounded
+			reentrant := false
+			for _, ac := range rt {
+				for _, ref := range append([]string{ac.To}, ac.Args...) {
+					if ref == "self" || ref == "caller" || ref == "origin" || strings.HasPrefix(ref, "new:") {
+						reentrant = true
+					}
+				}
+			}
+			if g.rng.Intn(3) == 0 && !reentrant {
+				g.plain = true // nor may what it creates call back into it
 				rt = append(rt, g.nestedCreate())
+				g.plain = false
 			}
 			t, _ := g.terminal(false)
 			rt = append(rt, t)
